@@ -189,3 +189,15 @@ def run_case(case):
         values_mismatch('dense', 'dense input differs from PyWavelets: ' +
                         core.first_mismatch(y_impl, y_ref, tol2))
     return r
+
+LEVEL_TEXT = ('Generated-input search: for each generated configuration the whole '
+              'linear operator computed by DWT1DForward/DWTForward is extracted from '
+              'basis inputs and compared entrywise with PyWavelets (plus dense inputs, '
+              'shapes, ordering, dtype, and the reflect-mode rejection rule in both '
+              'directions). Thorough tier visits every (wavelet, mode, dim) stratum. '
+              'No proof: configurations are sampled, sizes bounded (1-D <= 160, 2-D <= 20x20 '
+              'for full operators).')
+LEVEL_NOTE = ('Trusts PyWavelets as reference and linearity of the transform (checked by C07) '
+              'to extend basis agreement to all inputs; tolerances in DESIGN.md 2.4; open known '
+              'finding KF-D1-analysis (short periodization) is classified, not hidden.')
+TECHNIQUE = 'property-based testing (Hypothesis), differential oracle PyWavelets on extracted operators'
